@@ -317,8 +317,23 @@ func runC19Ann(rep Rep, c C19AnnCase) {
 	if err := helper.SetDeleteSlots(s, in); err != nil {
 		rep.Violate("slots/set-failed", "SetDeleteSlots: %v", err)
 	}
-	if got := helper.GetDeleteSlots(s); !got.Equal(in) {
+	got := helper.GetDeleteSlots(s)
+	if !got.Equal(in) {
 		rep.Violate("slots/get-after-set", "wrote %v read %v (annotation %q)", sortedI32(in), sortedI32(got), s.Annotations[helper.DeleteSlotsAnn])
+	}
+	// the set handed out belongs to the caller (the get / Insert / Set idiom changes it in place): whatever the
+	// caller does with it, the annotation still reads as what was written - on this object and on any other
+	// object carrying the same value
+	got.Insert(c.More...)
+	got.Insert(1234567, -7)
+	if again := helper.GetDeleteSlots(s); !again.Equal(in) {
+		rep.Violate("slots/read-aliases-earlier-result", "wrote %v, a caller changed the set it had read, a second read gives %v", sortedI32(in), sortedI32(again))
+	}
+	twin := mk()
+	if err := helper.SetDeleteSlots(twin, in); err == nil {
+		if again := helper.GetDeleteSlots(twin); !again.Equal(in) {
+			rep.Violate("slots/read-aliases-earlier-result", "wrote %v on a second object after a caller changed the set read from the first: read %v", sortedI32(in), sortedI32(again))
+		}
 	}
 	if _, has := s.Annotations[helper.DeleteSlotsAnn]; in.Len() == 0 && has {
 		rep.Violate("slots/empty-set-keeps-annotation", "writing an empty set left the annotation %q", s.Annotations[helper.DeleteSlotsAnn])
